@@ -182,8 +182,8 @@ int event_callback_finalize_many_(struct event_base *base, int n_cbs, struct eve
 {
 	int i;
 	(void)base;
-	VP_ASSERT(n_cbs >= 1 && n_cbs <= 16, "event contract: finalize_many count");
-	for (i = 0; i < 16; i++)
+	VP_ASSERT(n_cbs >= 1 && n_cbs <= 6, "harness bound: finalize_many with more than 6 callbacks (no deferred evbuffer callbacks, no rate limit)");
+	for (i = 0; i < 6; i++)
 		if (i < n_cbs) {
 			struct event_callback *e = evcbs[i];
 			if (e->evcb_flags & EVLIST_INIT) {
